@@ -340,6 +340,19 @@ func exhaustiveC05(thorough bool, emit func(C05Case) bool) {
 			return
 		}
 	}
+	// multi-byte tokens at the start and inside of names, first and later trees
+	for _, tok := range gen.HostileTokens {
+		for pos := 0; pos < 2; pos++ {
+			val := append(append(gen.B{}, tok...), 'x')
+			if pos == 1 {
+				val = append(append(gen.B{'x'}, tok...), 'y')
+			}
+			ts := gen.TreeSpec{Parents: []int{0, 0}, Names: []gen.B{val, gen.B("k"), val}, Dists: []gen.F{0, 1.5}}
+			if !emit(C05Case{Trees: []gen.TreeSpec{ts, {Names: []gen.B{val}}, ts}, Sep: "\n"}) {
+				return
+			}
+		}
+	}
 	// separators between several trees
 	for _, sep := range []string{"", "\n", "\r\n", " ", "\t", " \n\t"} {
 		ts := []gen.TreeSpec{{Parents: []int{0, 0}, Names: plain}, {}, {Parents: []int{0}, Names: hostile}, {Shape: "chain", N: 3, Dists: dists}}
